@@ -392,7 +392,9 @@ def rates_parser(F, rep):
     tb = Terms(F, b, inline_depth=0)
     pushes = [(i, t) for i, t in b.calls() if parse_callee(t["callee"])[2] == "push" and "RateEntry" in " ".join(t.get("aty") or [])]
     if not pushes:
-        rep.unresolved("R7", "push", "no push of a RateEntry")
+        # second spelling: the rows go through an iterator pipeline and the entry is built in a method (refactoring r25)
+        if not _rates_parser_by_constructors(F, rep, b, tb):
+            rep.unresolved("R7", "push", "no push of a RateEntry")
         return
     # period check: on the Some(expected) edge, year and month are compared and a mismatch leaves without pushing
     yr = mo = pos = False
@@ -500,6 +502,100 @@ def rates_parser(F, rep):
            "no dominating comparison of the file's month with the expected month", b.loc(), key="R7:period:month")
     rep.ob("R7", "rate:positive", pos, "entries are pushed only after `rate <= 0 → Err`" if pos else
            "pushing an entry is not guarded by a non-positive-rate rejection", b.loc(), key="R7:rate:positive")
+
+
+def _rates_parser_by_constructors(F, rep, b, tb):
+    """R7 without a `push`: (a) every construction of a RateEntry takes a rate that passed `> 0` — at the construction itself, or,
+    when the rate is a field of a carrier handed in (`Quote.rate_per_gbp`), at every construction of that carrier; (b) before the
+    rows are collected the parser calls, with `?`, a same-crate helper on its expected-period parameter that compares BOTH components
+    with the parsed period and returns Err on a mismatch. Returns False when this spelling is not present either."""
+    from roles import guards_of
+    mod = [x for x in F.bodies.values() if x.crate == b.crate and "::parser::" in x.id and P.user_written(F, x)]
+
+    def aggs(suffix_or_pred):
+        for x in mod:
+            xt = None
+            for i, si, st in x.assigns():
+                rv = st["rv"]
+                if rv["k"] == "agg" and rv.get("fields") and suffix_or_pred(rv["adt"]):
+                    xt = xt or Terms(F, x, inline_depth=0)
+                    yield x, xt, i, st, dict(zip(rv["fields"], rv["ops"]))
+
+    def zero(t):
+        return t == ("const", "Decimal::ZERO") or show(t).endswith("ZERO")
+
+    def positive(x, xt, blk, term):
+        for cond, val, w in guards_of(x, xt, blk):
+            if isinstance(cond, tuple) and cond and cond[0] in ("cmp", "bin") and len(cond) == 4:
+                op, l, r = cond[1], cond[2], cond[3]
+                tv = val != "0"
+                if l == term and zero(r) and ((op == "Gt" and tv) or (op == "Le" and not tv)):
+                    return True
+                if r == term and zero(l) and ((op == "Lt" and tv) or (op == "Ge" and not tv)):
+                    return True
+        return False
+    entries = list(aggs(lambda a: a.endswith("::RateEntry")))
+    if not entries:
+        return False
+    pos = True
+    for x, xt, blk, st, flds in entries:
+        rf = next((f for f in flds if "rate" in f), None)
+        if rf is None:
+            pos = False
+            continue
+        tr = xt.operand(flds[rf])
+        if positive(x, xt, blk, tr):
+            continue
+        ok = False
+        if isinstance(tr, tuple) and tr and tr[0] == "field" and isinstance(tr[1], tuple) and tr[1] and tr[1][0] == "param":
+            pty = x.local_ty(tr[1][1] + 1).replace("&", "").strip()
+            sites = [(y, yt, i2, yt.operand(f2[tr[2]])) for y, yt, i2, st2, f2 in aggs(lambda a, pty=pty: a == pty or pty.endswith(a)) if tr[2] in f2]
+            ok = bool(sites) and all(positive(y, yt, i2, t2) for y, yt, i2, t2 in sites)
+        pos = pos and ok
+    # (b)
+    yr = mo = False
+    exp = [k for k in range(b.argc) if "Option<(i32, u32)>" in b.local_ty(k + 1)]
+    sinks = [i for i, t in b.calls() if parse_callee(t["callee"])[2] in ("collect", "extend", "from_iter", "try_fold", "try_for_each", "for_each", "push")]
+    for i, t in b.calls():
+        hb = F.bodies.get(t["callee"])
+        if hb is None or hb.crate != b.crate or "Result" not in hb.ret:
+            continue
+        args = [tb.operand(a) for a in t["args"]]
+        if not any(isinstance(a, tuple) and a and a[0] == "param" and a[1] in exp for a in args):
+            continue
+        ct = tb.call_term(t)
+        propagated = any(parse_callee(u["callee"])[2] == "from_residual" and any(x == ct for x in subterms(tb.operand(u["args"][0]))) for _, u in b.calls())
+        if not propagated or not sinks or not all(b.dominates(i, sk) for sk in sinks):
+            continue
+        htb = Terms(F, hb, inline_depth=0)
+        ok_blocks = {bi for bi, si, st in hb.assigns() if st["rv"]["k"] == "agg" and st["rv"].get("adt") == "core::result::Result" and st["rv"].get("variant") == "Ok"}
+        for s_, sw in hb.terms_of_kind("switch"):
+            c = htb.operand(sw["discr"])
+            if not (isinstance(c, tuple) and c and c[0] in ("cmp", "bin") and c[1] in ("Ne", "Eq") and len(c) == 4):
+                continue
+            mismatch = sw["otherwise"] if c[1] == "Ne" else next((x for v, x in sw["targets"] if v == "0"), None)
+            if mismatch is None or (ok_blocks & hb.reach_from(mismatch)):
+                continue
+            pairs = []
+            if all(isinstance(z, tuple) and z and z[0] == "tuple" and len(z[1]) == 2 for z in (c[2], c[3])):
+                pairs = list(zip(c[2][1], c[3][1]))
+            else:
+                pairs = [(c[2], c[3])]
+            for l, r in pairs:
+                ls, rs = show(l), show(r)
+                e, o = (ls, rs) if "expected" in ls or ls.endswith((".0", ".1")) and "some(" in ls else (rs, ls)
+                if e.endswith(".0") and ("year" in o or o.endswith(".0")):
+                    yr = True
+                if e.endswith(".1") and ("month" in o or o.endswith(".1")):
+                    mo = True
+    rep.ob("R7", "period:year-checked", yr, "period year is compared with the expected year before the rows are collected" if yr else
+           "no dominating comparison of the file's year with the expected year", b.loc(), key="R7:period:year")
+    rep.ob("R7", "period:month-checked", mo, "period month is compared with the expected month before the rows are collected" if mo else
+           "no dominating comparison of the file's month with the expected month", b.loc(), key="R7:period:month")
+    rep.ob("R7", "rate:positive", pos, "every rates entry is built from a rate that passed `> 0`" if pos else
+           "an entry can be built from a rate that was not tested to be positive", b.loc(), key="R7:rate:positive")
+    rep.note("R7: rates parser read in its constructor spelling (no push); the every-row-judged clause is not evaluated in this spelling")
+    return True
 
 
 def wiring(F, rep):
